@@ -712,6 +712,16 @@ class InterfaceClass(_InterfaceClassBase):
     #
     # implements(IInterface)
 
+    def __init_subclass__(cls, **kwargs):
+        super().__init_subclass__(**kwargs)
+        # The C implementation of ``__call__`` runs its built-in
+        # ``__adapt__`` unless the dictionary of the *exact* type carries
+        # this flag. Set it on every subclass that overrides ``__adapt__``
+        # or inherits such an override, whether it was written as a plain
+        # subclass or produced for ``interfacemethod``.
+        if cls.__adapt__ is not InterfaceBase.__adapt__:
+            cls._CALL_CUSTOM_ADAPT = 1
+
     def __new__(
         cls,
         name=None,
